@@ -126,7 +126,8 @@ def compare_pair(res: Result, kf, name: str, fn: dict, mode: str, depth: int, wi
 
 
 def _module_job(job):
-    (mname, src, kind), tier, seed, depth, width = job
+    m_, tier, seed, depth, width = job
+    mname, src, kind = m_[:3]
     res = Result("C02", tier, seed, "translation_validation")
     kf = None
     t0 = time.time()
@@ -135,8 +136,8 @@ def _module_job(job):
         res.add(Obligation(f"{mname}", "undecided", f"corpus module does not compile: {json.dumps(r)[:200]}"))
         return res
     programs = 0
-    for fn in r["Ok"]["functions"]:
-        if fn.get("skipped"):
+    for fi, fn in enumerate(r["Ok"]["functions"]):
+        if fn.get("skipped") or not U.in_chunk(m_, fi):
             continue
         name = f"{mname}:{fn['name']}"
         if fn.get("gen_panic"):
@@ -157,7 +158,7 @@ def _module_job(job):
         if len(res.samples) < 2:
             res.samples.append({"program": name, "params": [p["type"]["k"] for p in fn["params"]], "result": ob.detail[:160]})
     res.extra["programs"] = programs
-    log(f"[C02] {mname}: {programs} programs, {time.time() - t0:.1f}s")
+    log(f"[C02] {mname}{'#%d' % m_[3] if len(m_) > 3 and m_[4] > 1 else ''}: {programs} programs, {time.time() - t0:.1f}s")
     return res
 
 
@@ -176,7 +177,7 @@ def run(tier: str, seed: int, only=None) -> Result:
     res.extra["trusted_base"] = ["uplcsym (symbolic CEK)", "driver drv-lang (real parser/type checker/code generator/optimiser)", "z3 5.1"]
     kf = KnownFindings()
     mods = [m for m in U.corpus(tier, seed) if not only or only in m[0]]
-    U.merge(res, U.pmap(_module_job, [(m, tier, seed, depth, width) for m in mods]))
+    U.merge(res, U.pmap(_module_job, [(m, tier, seed, depth, width) for m in U.chunked(mods)]))
     res.extra.setdefault("programs", 0)
     res.extra.setdefault("disagreements_checked", 0)
     from props import common_post
